@@ -6,6 +6,7 @@ use crate::fault;
 use crate::rng::Rng;
 use crate::world::*;
 use cosmwasm_std::Uint128;
+use margined_perp::margined_engine as me;
 use margined_perp::margined_vamm as mv;
 use std::io::Write;
 
@@ -459,8 +460,36 @@ pub fn run_twin(out: &mut dyn Write, seed: u64, thorough: bool, n_hist: usize) {
                             if let (Some(p), Some(pn)) = (wc.position(pv, pt), spot_pnl(&wc, pv, pt)) {
                                 v = pv; t = pt;
                                 side = if p.direction == mv::Direction::AddToAmm { Side::Sell } else { Side::Buy };
-                                let rest = match rng.below(4) { 0 => lev / u + 1, 1 => p.margin.u128() * lev / u / 4 + 1, 2 => p.margin.u128() * lev / u / 2 + 7, _ => p.margin.u128() * lev / u + rng.below(1000) as u128 };
-                                amt = (pn.position_notional.u128() + rest) * u / lev + 1;
+                                // one in four: somebody else first pushes the price far in the position's favour at high
+                                // leverage (little margin enters the vault), so that what the position is owed exceeds
+                                // the vault; then the reversal is by exactly the position's worth (nothing re-opened)
+                                let mut exact = false;
+                                if rng.chance(1, 3) {
+                                    let others: Vec<u32> = TRADERS.iter().cloned().filter(|x| *x != pt && wc.position(pv, *x).is_none()).collect();
+                                    if let Some(pusher) = others.first().cloned() {
+                                        let q = vamm_state(&wc, pv).quote_asset_reserve.u128();
+                                        // (the margin requirement is lowered first so that the push needs little margin)
+                                        for o in [Op::Vamm { sender: ID_OWNER, v: pv, m: VMsg::UpdCfg { hold: Some(0), oi: Some(0), toll: None, spread: None, fluct: Some(0), engine: None, ifund: None, feed: None, twap: None } },
+                                                  Op::Eng { sender: ID_OWNER, funds: 0, m: EMsg::UpdCfg { owner: None, ifund: None, fpool: None, init: None, maint: Some(u / 1000), plr: None, liqfee: None } },
+                                                  Op::Eng { sender: ID_OWNER, funds: 0, m: EMsg::UpdCfg { owner: None, ifund: None, fpool: None, init: Some(u / 100), maint: None, plr: None, liqfee: None } }] {
+                                            trc.step(&mut wc, &o); trn.step(&mut wn, &o);
+                                        }
+                                        let imr = eng_cfg(&wc).initial_margin_ratio.u128();
+                                        let pl = if imr == 0 { 10 * u } else { (u * u / imr).min(100 * u).max(u) };
+                                        let n = q * (1 + rng.below(4) as u128);
+                                        if n < 2_000_000_000u128 * u {
+                                            let pside = if p.direction == mv::Direction::AddToAmm { Side::Buy } else { Side::Sell };
+                                            let o1 = mk_open(&wc, pusher, pv, pside.clone(), n * u / pl + 1, pl, 0);
+                                            let o2 = mk_open(&wn, pusher, pv, pside, n * u / pl + 1, pl, 0);
+                                            trc.step(&mut wc, &o1); trn.step(&mut wn, &o2);
+                                            exact = true;
+                                        }
+                                    }
+                                }
+                                let pn = if exact { match spot_pnl(&wc, pv, pt) { Some(x) => x, None => continue } } else { pn };
+                                if exact { lev = u; }
+                                let rest = if exact { 0 } else { match rng.below(4) { 0 => lev / u + 1, 1 => p.margin.u128() * lev / u / 4 + 1, 2 => p.margin.u128() * lev / u / 2 + 7, _ => p.margin.u128() * lev / u + rng.below(1000) as u128 } };
+                                amt = if exact { pn.position_notional.u128() } else { (pn.position_notional.u128() + rest) * u / lev + 1 };
                             }
                         }
                         let (pull, detail) = open_funds_cw20_detail(&wc, v, t, &side, amt, lev);
@@ -561,10 +590,13 @@ pub fn run_forge(out: &mut dyn Write, seed: u64, _thorough: bool, n_hist: usize)
         tr.step(&mut w, &Op::Block { dt: 10, dh: 1 });
         let amt = u * (1 + rng.below(30) as u128);
         let funds = if w.d.native { amt } else { 0 };
+        // what the holder of the real position could withdraw (the forged call asks for a part of it)
+        let fc: Option<margined_common::integer::Integer> = w.q(&w.engine, &me::QueryMsg::FreeCollateral { vamm: w.addr(ID_VAMM0).to_string(), trader: w.addr(TRADERS[0]).to_string() });
+        let wamt = match fc { Some(f) if !f.negative && f.value.u128() > 1 => std::cmp::max(1, f.value.u128() / (2 + rng.below(4) as u128)), _ => 1 };
         // every position-touching entry point, with the forged vAMM string and with the real one
         for vamm in [ID_FORGED_VAMM, ID_VAMM0] {
             tr.step(&mut w, &Op::Eng { sender: ID_SUFFIX_ACCOUNT, funds, m: EMsg::Deposit { vamm, amt } });
-            tr.step(&mut w, &Op::Eng { sender: ID_SUFFIX_ACCOUNT, funds: 0, m: EMsg::Withdraw { vamm, amt: u } });
+            tr.step(&mut w, &Op::Eng { sender: ID_SUFFIX_ACCOUNT, funds: 0, m: EMsg::Withdraw { vamm, amt: wamt } });
             tr.step(&mut w, &Op::Eng { sender: ID_SUFFIX_ACCOUNT, funds: 0, m: EMsg::Close { vamm, limit: 0 } });
             let of = if w.d.native { u } else { 0 };
             tr.step(&mut w, &Op::Eng { sender: ID_SUFFIX_ACCOUNT, funds: of, m: EMsg::Open { vamm, side: Side::Buy, margin: u, lev: u, limit: 0 } });
